@@ -262,6 +262,16 @@ class History:
             return rng.choice(other)
         return 'QQQQQQ'
 
+    def epic_arg(self):
+        """An epic argument: mostly a live epic, else a task id / unknown / pruned id, or a live epic's id in
+        another spelling (case, padding) — ids are exact strings, so those must be refused."""
+        rng = self.rng
+        epics = self.live(True)
+        if epics and rng.random() < 0.12:
+            i = rng.choice(epics)
+            return rng.choice([i.lower(), ' ' + i, i + ' ', ' ' + i + ' ', i.lower() + ' '])
+        return self.some_id('epic')
+
     def make_result_fields(self):
         rng = self.rng
         self.nfile += 1
@@ -289,7 +299,7 @@ class History:
                 f['body'] = rng.choice(BODIES)
             if not is_epic:
                 if rng.random() < 0.4:
-                    f['epic'] = self.some_id('epic')
+                    f['epic'] = self.epic_arg()
                 if rng.random() < 0.22:
                     f['state'] = rng.choice(STATES + ['bogus'] if rng.random() < 0.08 else STATES)
                 if rng.random() < 0.2:
@@ -308,7 +318,7 @@ class History:
                 elif key == 'body':
                     f['body'] = rng.choice(BODIES)
                 elif key == 'epic':
-                    f['epic'] = '' if (mode == 'json' and rng.random() < 0.25) else self.some_id('epic')
+                    f['epic'] = '' if (mode == 'json' and rng.random() < 0.25) else self.epic_arg()
                 elif key == 'state':
                     f['state'] = rng.choice(STATES + ['bogus'] if rng.random() < 0.05 else (self.profile or {}).get('states', STATES))
                 elif key == 'claim':
